@@ -908,6 +908,11 @@ func validate(r *core.Run, recs []*record) {
 
 // ---------- the run ----------
 
+// measured coverage of the wider oracles (reported in the evidence)
+var cov struct {
+	exactSections, glueOutputs, executed, realEdges, mixedKindOutputs, redirected int
+}
+
 func runBatch(r *core.Run, scens []scenario, base int, drift *int) {
 	builds := make([]*built, len(scens))
 	rec.Take()
@@ -1044,6 +1049,37 @@ func runBatch(r *core.Run, scens []scenario, base int, drift *int) {
 			*drift++
 			r.Drift("MetaGen predicts substitutes=%v multi=%v for %s, the real metafile shows substitutes=%v multi=%v", s.Substitutes, s.Multi, s.id(), rc.subst, rc.multi)
 		}
+		cov.exactSections += len(rc.Exact)
+		cov.glueOutputs += len(rc.Glue)
+		if rc.Exec {
+			cov.executed++
+			cov.realEdges += len(rc.REdges)
+		}
+		// outputs into which paths of both kinds were substituted (an emitted asset and another chunk)
+		kinds := map[string]map[string]bool{}
+		for _, m := range rc.OImports {
+			if m.External {
+				continue
+			}
+			if kinds[m.Out] == nil {
+				kinds[m.Out] = map[string]bool{}
+			}
+			if m.Kind == "file-loader" || m.Kind == "url-token" {
+				kinds[m.Out]["asset"] = true
+			} else {
+				kinds[m.Out]["chunk"] = true
+			}
+		}
+		for _, k := range kinds {
+			if len(k) == 2 {
+				cov.mixedKindOutputs++
+			}
+		}
+		for _, m := range rc.IImports {
+			if m.Disabled || (!m.External && m.Spec != "<pattern>" && !strings.HasPrefix(m.Spec, ".") && m.Spec != m.Path) {
+				cov.redirected++
+			}
+		}
 		if (base+i)%97 == 0 {
 			r.Sample(map[string]interface{}{"scenario": s, "outputs": rc.Outputs, "inputs": rc.Inputs, "contributions": rc.OInputs})
 		}
@@ -1072,6 +1108,9 @@ func Run(r *core.Run) {
 	r.Assume("imports/exports of the emitted code are obtained by re-parsing it with the acorn that Node 20 embeds (JS) and a CSS tokenizer (@import, url()); a string literal of a JS output that resolves to an emitted asset is a file-loader reference")
 	r.Assume("the set of files read into the bundle is the set of scan.parse hook events of the build (per working directory)")
 	r.Assume("every input carries a unique marker literal; the code a file-loader input contributes to a JS/CSS output is the path of its emitted copy")
+	r.Assume("in output that keeps its white space the text printed for an input lies between its path comment and the next path comment or the linker's tail (export clause, CommonJS annotation, IIFE close, end-of-file legal comments, link comments); the inputs of the scenarios contain no such line themselves")
+	r.Assume("group res: every module records at run time (Node 20, node/meta_exec.js) that it was evaluated and the id of every module it received; a module that the browser map disables or an external module has no id")
+	cov.exactSections, cov.glueOutputs, cov.executed, cov.realEdges, cov.mixedKindOutputs, cov.redirected = 0, 0, 0, 0, 0, 0
 	rec.Install()
 	if root, err := filepath.EvalSymlinks(r.Scratch); err == nil {
 		r.Scratch = root
@@ -1159,7 +1198,13 @@ func Run(r *core.Run) {
 		runBatch(r, scens[i:j], i, &drift)
 	}
 	wg.Wait()
-	r.Set("rule", "case = one scenario of MetaGen.tla (family x path style x minify x format x source maps x legal comments) built with the real api.Build; non-trivial = two or more inputs contribute to one output, or a final path was substituted into an output (an output imports another emitted file); every build becomes one record validated by TLC against MetaState.tla")
+	r.Set("exact_sections_compared", cov.exactSections)
+	r.Set("outputs_with_glue_equation", cov.glueOutputs)
+	r.Set("bundles_executed", cov.executed)
+	r.Set("runtime_import_edges_compared", cov.realEdges)
+	r.Set("outputs_with_asset_and_chunk_paths", cov.mixedKindOutputs)
+	r.Set("resolution_dependent_import_edges", cov.redirected)
+	r.Set("rule", "case = one scenario of MetaGen.tla (base: family x path style x minify level x format x source maps x legal comments; mix: assets x lazy pages x name lengths x css x shared entry x import order x path templates x minify level; res: resolution mechanism x platform x main fields x reference kinds x preserveSymlinks x format x minify) built with the real api.Build; non-trivial = two or more inputs contribute to one output, or a final path was substituted into an output (an output imports another emitted file); every build becomes one record validated by TLC against MetaState.tla")
 }
 
 func init() { core.Register("C19", Run) }
